@@ -241,6 +241,17 @@ func (r *runner) mutations(t template, outsider *holder, nFlips, nByteFlips int,
 	tamper("tamper-gas-wanted", func(b *txkit.Body) { b.Fee.GasWanted += 1000 })
 	tamper("tamper-messages", func(b *txkit.Body) { b.Msgs = t.alt.Msgs })
 	tamper("tamper-append-message", func(b *txkit.Body) { b.Msgs = append(append([]std.Msg{}, b.Msgs...), b.Msgs[0]) })
+	// the body is re-priced after signing (so the signatures cannot verify) to amounts of gas that
+	// run out somewhere inside the ante handler: before the fee is touched, while it is being
+	// deducted, during signature verification. Whatever the point, a rejected tx leaves nothing.
+	ladder := []int64{20_000, 100_000, 300_000, 450_000, 600_000, 800_000, 1_000_000, 1_300_000, 1_600_000, 2_000_000, 2_600_000, 50_000 + int64(r.rng.IntN(3_000_000)), 50_000 + int64(r.rng.IntN(3_000_000))}
+	if r.c.Quick() {
+		ladder = []int64{100_000, 450_000, 800_000, 1_300_000, 2_000_000, 50_000 + int64(r.rng.IntN(3_000_000))}
+	}
+	for _, g := range ladder {
+		g := g
+		tamper(fmt.Sprintf("gas-sweep:%d", g), func(b *txkit.Body) { b.Fee.GasWanted = g })
+	}
 	add("gas-1", func() []byte {
 		b := t.body
 		b.Fee.GasWanted = 1
